@@ -480,6 +480,35 @@ func famCompare(dir string, seed int64, tier string) {
 		wCb.add(fmt.Sprintf("CbCase %s %s %s", coqRLE(a), coqRLE(b), signStr(s, e)), desc, len(a) > 0 && len(b) > 0)
 	}
 
+	// length headers whose varint terminates before the announced count of bytes is used up, or is longer than needed
+	for _, hdr := range [][]byte{{0xFD, 0x03, 0x01}, {0xFD, 0x83, 0x00}, {0xFC, 0x03, 0x00, 0x01}, {0xFE, 0x03}, {0xFE, 0x80}, {0xFD, 0x80, 0x01}, {0xF7, 0x03, 0, 0, 0, 0, 0, 0, 1}} {
+		for _, kb := range []byte{byte(sb.KindString), byte(sb.KindBytes), byte(sb.KindRef), byte(sb.KindLiteral)} {
+			a := append(append([]byte{kb}, hdr...), bytes.Repeat([]byte{'q'}, 140)...)
+			for _, b := range [][]byte{a, append(append([]byte{kb}, 3), 'q', 'q', 'q'), append(append([]byte{kb}, 0x7f), bytes.Repeat([]byte{'q'}, 127)...)} {
+				for side := 0; side < 2; side++ {
+					x, y := a, b
+					if side == 1 {
+						x, y = b, a
+					}
+					s, e := cmpBytesImpl(x, y)
+					repCb.Evaluations++
+					desc := fmt.Sprintf("odd length header: a=%x b=%x", truncBytes(x), truncBytes(y))
+					if classOf(e) == "EPanic" {
+						repCb.violate("C07", "comparebytes-panic", fmt.Sprintf("CompareBytes panicked: %v", e), desc)
+					}
+					// the three routes agree on what these bytes mean wherever all of them accept
+					da, db := runDecode(x, false, 1, false, nil), runDecode(y, false, 1, false, nil)
+					if da.err == nil && db.err == nil && e == nil {
+						s1, e1 := cmpTokensImpl(da.toks, db.toks)
+						if e1 == nil && sgn(s1) != sgn(s) && !hasNaNPayload(da.toks) && !hasNaNPayload(db.toks) {
+							repCb.violate("C07", "routes-disagree", fmt.Sprintf("CompareBytes=%d, Compare over the decoded tokens=%d", sgn(s), sgn(s1)), desc)
+						}
+					}
+					wCb.add(fmt.Sprintf("CbCase %s %s %s", coqRLE(x), coqRLE(y), signStr(s, e)), desc, true)
+				}
+			}
+		}
+	}
 	// every truncation of one token's encoding against the whole (and the other way round), for every kind:
 	// the read-error branches of CompareBytes, side A and side B
 	seenK := map[sb.Kind]int{}
@@ -633,3 +662,10 @@ func tokensNumEq(a, b []sb.Token) bool {
 }
 
 var _ = rand.Int
+
+func truncBytes(b []byte) []byte {
+	if len(b) > 16 {
+		return b[:16]
+	}
+	return b
+}
